@@ -19,12 +19,16 @@ def build(repo, findings):
     u.prelude('env/spec.rs')
     u.add(src.item(r'^pub struct ShellEnvironment ', 'ShellEnvironment').r1(keep_derive=()).r11().pub_fields())
     im = src.item(r'^impl ShellEnvironment ', 'impl ShellEnvironment').r1()
-    im.keep_only_fns(['new', 'push_scope', 'pop_scope', 'get', 'unset', 'try_unset_in_map'],
-                     'iter_mut().rev() mutable iteration (add, get_mut*), HashMap::entry / filter closures (iter*), Cow (get_str), assign paths (update_or_add*) — NOT verified')
+    im.keep_only_fns(['new', 'push_scope', 'pop_scope', 'get', 'unset', 'try_unset_in_map', 'add'],
+                     'iter_mut().rev() mutable iteration returning references (get_mut*), HashMap::entry / filter closures (iter*), Cow (get_str), assign paths (update_or_add*) — NOT verified')
     im.replace('pub fn get<S: AsRef<str>>(&self, name: S)', 'pub fn get(&self, name: &str)', 'R10', 'generic S: AsRef<str> instantiated at &str')
     im.replace('map.get(name.as_ref())', 'map.get(name)', 'R10', '.as_ref() on &str is the identity')
+    im.resub(r'pub fn add<N: Into<String>>\(\s*&mut self,\s*name: N,', 'pub fn add(\n        &mut self,\n        name: &str,', 'R10', 'generic N: Into<String> instantiated at &str (the map stub takes the name by reference)', count=None)
     im.r11()
     im.r16_rev_pairs('unset', 0, suffix='u')
+    im.r16_rev_pairs('add', 0, suffix='a')
+    im.resub(r'(\n\s*)mut var: ShellVariable,', r'\1var_: ShellVariable,', 'R29', '`mut` by-value parameter -> plain parameter plus `let mut var = var_;` as the first statement (what `mut` on a parameter means)', count=None)
+    im.resub(r'\*&mut self\.scopes\[__ka\]\.0', 'self.scopes[__ka].0', 'R16', 'a dereferenced place is the place itself (`*scope_type` with scope_type = &mut scopes[k].0)', count=None)
     im.resub(r'ShellVariable::new\(ShellValue::Unset\(ShellValueUnsetType::Untyped\)\)', 'vx_unset_placeholder()', 'R14', 'construction of the declared-but-unset placeholder -> stub', count=None)
     im.sig('new', ret='r', ensures=[
         C('C09 global-scope-at-bottom', 'r.scopes@.len() == 1 && r.scopes@[0].0 is Global && r.scopes@[0].1@ == Map::<Seq<char>, ShellVariable>::empty()')])
@@ -89,6 +93,27 @@ proof {
     assert forall|j: int| 0 <= j < sc_before.len() && j != k implies #[trigger] self.scopes@[j] == sc_before[j] by {}
     assert(self.scopes@[k].0 == sc_before[k].0);
 }''', fn_name='unset', optional=True)
+    im.sig('add', ret='res', requires=[C('aux entry-count-fits', 'old(self).entry_count < usize::MAX')], ensures=[
+        C('C09 a-scope-of-the-kind-asked-for-takes-the-variable', 'forall|k: int| #[trigger] innermost_of_kind(%s, k, target_scope) ==> res is Ok' % SC0),
+        C('C09 a-new-variable-leaves-every-other-scope-alone', 'forall|k: int| #[trigger] innermost_of_kind(%s, k, target_scope) ==> same_but(%s, %s, k) && %s[k].0 == %s[k].0' % (SC0, SC1, SC0, SC1, SC0)),
+        C('C09 a-new-variable-goes-into-the-innermost-scope-of-the-kind-asked-for', '''forall|k: int| #[trigger] innermost_of_kind(%s, k, target_scope) ==>
+    %s[k].1@ == %s[k].1@.insert(name@, if old(self).export_variables_on_modification { var_.exported_version() } else { var_ })''' % (SC0, SC1, SC0)),
+        C('C09 without-a-scope-of-that-kind-nothing-is-added', '(forall|k: int| 0 <= k < %s.len() ==> %s[k].0 != target_scope) ==> res is Err && same_but(%s, %s, -1)' % (SC0, SC0, SC1, SC0)),
+    ])
+    im.at_body_start('add', 'let mut var = var_;\nlet ghost var0 = var_;')
+    im.loop(0, fn_name='add', invariant=[
+        C('aux', '__na <= self.scopes@.len() && self.scopes@ == old(self).scopes@ && self.entry_count == old(self).entry_count && self.entry_count < usize::MAX && self.export_variables_on_modification == old(self).export_variables_on_modification'),
+        C('C09 no-inner-scope-of-that-kind', 'forall|j: int| __na <= j < self.scopes@.len() ==> self.scopes@[j].0 != target_scope'),
+        C('aux the-variable-as-it-will-be-stored', 'var0 == var_ && var == (if old(self).export_variables_on_modification { var0.exported_version() } else { var0 })'),
+    ], decreases='__na', body_first='let ghost sc_before = self.scopes@;')
+    im.before(r'^\s*return Ok\(\(\)\);', '''proof {
+    let k = __ka as int;
+    assert forall|j: int| 0 <= j < sc_before.len() && j != k implies #[trigger] self.scopes@[j] == sc_before[j] by {}
+    assert(self.scopes@[k].0 == sc_before[k].0);
+    assert forall|k2: int| innermost_of_kind(old(self).scopes@, k2, target_scope) implies k2 == k by {
+        if k2 < k { assert(old(self).scopes@[k].0 == target_scope); }
+    }
+}''', fn_name='add', optional=True)
     im.sig('try_unset_in_map', ret='r', ensures=[
         C('C09 readonly-not-removed', '(old(map)@.contains_key(name@) && old(map)@[name@].readonly()) ==> r is Err && final(map)@ == old(map)@'),
         C('C09 unset-removes-only-that-name', '(old(map)@.contains_key(name@) && !old(map)@[name@].readonly()) ==> r == Ok::<Option<ShellVariable>, error::Error>(Some(old(map)@[name@])) && final(map)@ == old(map)@.remove(name@)'),
@@ -98,6 +123,6 @@ proof {
     u.raw(FOOTER)
     u.assume('external_body', 'ShellVariableMap is opaque with ASSUMED map contracts on get / unset / default (one-line HashMap delegations); ShellVariable is opaque except is_readonly')
     u.assume('uninterp', 'ShellVariableMap::view, ShellVariable::readonly')
-    u.assume('stub', 'ShellEnvironment::add / get_mut* / update_or_add* (iter_mut().rev(), closures) and the value writers ShellVariable::assign / assign_at_index / unset_index are NOT verified: the readonly clause for value writers is out of reach (DESIGN.md C09)')
+    u.assume('stub', 'ShellEnvironment::get_mut* / update_or_add* (iter_mut().rev(), closures) and the value writers ShellVariable::assign / assign_at_index / unset_index are NOT verified: the readonly clause for value writers is out of reach (DESIGN.md C09)')
     u.expected_min_fns = 8
     return u
